@@ -112,7 +112,7 @@ theorem NodupKeys.assocSet {l : List (Nat × Nat)} (h : NodupKeys l) (k v : Nat)
     subst hb
     intro e; subst e; exact hk ha
 
-theorem mem_of_lookup {l : List (Nat × Nat)} {k v : Nat} (h : l.lookup k = some v) : (k, v) ∈ l := by
+theorem sizes_mem_of_lookup {l : List (Nat × Nat)} {k v : Nat} (h : l.lookup k = some v) : (k, v) ∈ l := by
   induction l with
   | nil => cases h
   | cons a r ih =>
@@ -122,7 +122,7 @@ theorem mem_of_lookup {l : List (Nat × Nat)} {k v : Nat} (h : l.lookup k = some
     · next e => rw [beq_iff_eq] at e; cases h; subst e; exact List.mem_cons_self
     · exact List.mem_cons_of_mem _ (ih h)
 
-theorem lookup_of_mem {l : List (Nat × Nat)} (hn : NodupKeys l) {k v : Nat} (h : (k, v) ∈ l) :
+theorem sizes_lookup_of_mem {l : List (Nat × Nat)} (hn : NodupKeys l) {k v : Nat} (h : (k, v) ∈ l) :
     l.lookup k = some v := by
   induction l with
   | nil => cases h
@@ -188,9 +188,9 @@ theorem argMin_spec (l : List (Nat × Nat)) (hn : NodupKeys l) (k : Nat) (h : ar
       rcases h1 with h1 | h1
       · rw [h1]; exact List.mem_cons_self
       · exact List.mem_cons_of_mem _ h1
-    refine ⟨rv, lookup_of_mem hn hmem, ?_⟩
+    refine ⟨rv, sizes_lookup_of_mem hn hmem, ?_⟩
     intro k' v' hl
-    rcases List.mem_cons.mp (mem_of_lookup hl) with e | e
+    rcases List.mem_cons.mp (sizes_mem_of_lookup hl) with e | e
     · cases e; exact h2
     · exact h3 _ e
 
